@@ -216,16 +216,25 @@ func (r *runner) do(req *Req) (*Resp, string, string) {
 		}
 		r.w = w
 	}
-	// "time bounded by the size of the template": the CPU budget grows with the size of the request (1 s per 50 kB of
-	// template, four entry points each), so that a megabyte of text is not a hang because it is a megabyte
+	// "time bounded by the size of the template": the CPU budget of an evaluation grows with the size of the request
+	// (1 s per 50 kB of template), so that a megabyte of text is not a hang because it is a megabyte. A template
+	// request is four evaluations (the four entry points); each of them has that budget, which the judge checks
+	// against the CPU time the worker reports for each, and the watchdog here allows the sum.
 	lim := r.lim
-	lim.cpu += time.Duration(len(req.Tpl)/50000) * time.Second
+	lim.cpu = evaluationBudget(r.lim.cpu, req.Tpl)
+	if req.Kind == "tpl" {
+		lim.cpu *= 4
+	}
 	resp, oc, detail := r.w.do(req, lim)
 	if oc != ocOK {
 		r.w = nil
 		r.restarts++
 	}
 	return resp, oc, detail
+}
+
+func evaluationBudget(base time.Duration, tpl string) time.Duration {
+	return base + time.Duration(len(tpl)/50000)*time.Second
 }
 
 func (r *runner) close() {
